@@ -497,7 +497,7 @@ func c08Run(c *core.Ctx, idx int) {
 			}()
 			mkStorage = func(lines []string) *filterlist.RuleStorage {
 				fn := filepath.Join(dir, "l"+strconv.Itoa(len(opened))+".txt")
-				if os.WriteFile(fn, []byte(util.Lines(lines)), 0o644) == nil {
+				if os.WriteFile(fn, []byte(util.ChopEOL(util.Lines(lines))), 0o644) == nil {
 					if fl, ferr := filterlist.NewFileRuleList(1, fn, false); ferr == nil {
 						if st, serr := filterlist.NewRuleStorage([]filterlist.RuleList{fl}); serr == nil {
 							opened = append(opened, st)
